@@ -22,8 +22,8 @@ import (
 // C07 — plan space accounting matches the files actually held.
 type C07 struct{ Seeded bool } // Seeded: starts from a pay-once file and a plan-paid file, each with a prover; small alphabet, deeper
 
-var c07Files = map[string]*sfile{"400": mkFile(seqBytes(9, 4), 1024), "600": mkFile(seqBytes(9, 6), 1024), "max": mkFile(seqBytes(9, 9), 1024), "neg": mkFile(seqBytes(9, 3), 1024), "gen": mkFile(seqBytes(9, 5), 1024)}
-var c07Size = map[string]int64{"400": 400_000_000, "600": 600_000_000, "max": 1<<63 - 1, "neg": -400_000_000, "gen": 300_000_000}
+var c07Files = map[string]*sfile{"400": mkFile(seqBytes(9, 4), 1024), "600": mkFile(seqBytes(9, 6), 1024), "max": mkFile(seqBytes(9, 9), 1024), "neg": mkFile(seqBytes(9, 3), 1024), "gen": mkFile(seqBytes(9, 5), 1024), "tiny": mkFile(seqBytes(9, 7), 1024)}
+var c07Size = map[string]int64{"400": 400_000_000, "600": 600_000_000, "max": 1<<63 - 1, "neg": -400_000_000, "gen": 300_000_000, "tiny": 1_000_000}
 var c07Users = []string{"U1", "U2"}
 
 type c07Model struct {
@@ -120,6 +120,7 @@ func (s C07) Events(env world.Env, mm mc.Model) []string {
 		evs = append(evs, "PostOnce:U1:400:1", "Post:U1:max:1") // the largest size stateless validation accepts
 		evs = append(evs, "PostNegExp:U1:400:1")                // Expires = -1 passes stateless validation
 		evs = append(evs, "PostPastExp:U1:400:1")               // Expires = 1: positive, but a height that has already passed
+		evs = append(evs, "Post:U1:tiny:11", "Post:U1:tiny:25") // a small file with many replicas
 		// the same post made by a contract through the chain's wasm binding (U1 standing in for the contract account)
 		evs = append(evs, "WasmPost:U1:400:1", "WasmPost:U1:neg:1", "WasmPost:U1:max:2")
 	}
